@@ -220,6 +220,16 @@ WSum(u) ==
      s1 \in Steps1, s2 \in {<<1>>, <<2>>}, s3 \in {<<1>>, <<3>>}, o3 \in {0, 1}, u3 \in {"m", "km"},
      c3 \in {<<>>, <<Fix(1)>>}, sc \in {<<1>>, <<2>>}, ip \in BOOLEAN, two \in BOOLEAN, rev \in BOOLEAN}
 
+(* two readers of the merger with different steps: the merger is asked for non-monotone times *)
+(* (2 then 1, 4 then 3) while the coarse producers still hold what the earlier time needs     *)
+WSumBack(u) ==
+  {[MkCfg(<<TimeCU(s1, 0, "m"), TimeCU(<<3>>, 0, ""), TimeCU(s3, 0, u3), TimeCU(<<5>>, 0, ""),
+            WSumC(<<Lk(1, <<>>), Lk(2, <<>>), Lk(3, <<>>), Lk(4, <<>>)>>),
+            TimeC(<<2>>, 0, ip, <<Lk(5, <<>>)>>), TimeC(<<1>>, 0, ip, <<Lk(5, <<>>)>>)>>,
+           ord, 4, "dag", "wsumback") EXCEPT !.tb = 10] :
+     s1 \in {<<3>>, <<5>>}, s3 \in {<<3>>, <<5>>}, u3 \in {"m", "km"}, ip \in BOOLEAN,
+     ord \in {<<1, 2, 3, 4, 5, 6, 7>>, <<7, 6, 5, 4, 3, 2, 1>>, <<6, 7, 5, 1, 2, 3, 4>>}}
+
 (* one output of a pull-based component read by two inputs of one consumer *)
 (* for different times (direct and delayed)                                *)
 PullTwice(u) ==
@@ -296,6 +306,7 @@ CfgSpace(f) ==
     [] f = "pullringtail" -> PullRingTail(0)
     [] f = "ringbreak"  -> RingBreak(0)
     [] f = "wsum"       -> WSum(0)
+    [] f = "wsumback"   -> WSumBack(0)
     [] f = "pulltwice"  -> PullTwice(0)
     [] f = "fanoutshared" -> FanOutShared(0)
     [] f = "fanout3shared" -> FanOut3Shared(0)
@@ -307,6 +318,6 @@ CfgSpace(f) ==
 
 AllFamilies == {"pair", "pairL", "pairXL", "pair3", "chain3t", "chain3p", "fanin2", "fanin1",
                 "fanout", "pullfanout", "diamondt", "diamondp", "pullchain2", "ring2", "ring3",
-                "ring4", "pullring", "pullringtail", "ringbreak", "wsum", "pulltwice", "ring2tail", "fanoutshared", "repeatinteg", "sinkfan", "lateidle", "ringfanin", "fanout3shared", "chain3d"}
+                "ring4", "pullring", "pullringtail", "ringbreak", "wsum", "pulltwice", "ring2tail", "fanoutshared", "repeatinteg", "sinkfan", "lateidle", "ringfanin", "fanout3shared", "chain3d", "wsumback"}
 
 =============================================================================
